@@ -22,12 +22,15 @@ THEOREMS = [
     "RedunModel.C16.partial_top_set",
     "RedunModel.C16.partial_top_set_int",
     "RedunModel.C16.partial_top_set_str",
+    "RedunModel.C16.partial_top_set_unorderable",
+    "RedunModel.C16.pySorted_typeError_perm",
     "RedunModel.C16.nonset_hash_eq_iff",
     "RedunModel.C16.refuted_nested_list",
     "RedunModel.C16.refuted_dict_value",
     "RedunModel.C16.refuted_frozenset",
     "RedunModel.C16.refuted_set_of_frozenset",
     "RedunModel.C16.refuted_insertion_order_ints",
+    "RedunModel.C16.refuted_unorderable_with_frozenset",
     "RedunModel.C16.frozenset_sensitive",
     "RedunModel.C16.nested_set_sensitive",
     "RedunModel.C16.order_independent_refuted",
@@ -42,7 +45,11 @@ TRUSTED = [
     "the same in every process because every process builds the value with the same code); the tie checks exactly this: model "
     "pre-images and real hashes must be in bijection over all observed layouts",
     "modelled, not verified: Python's sorted() on a set of numbers / strs / bytes / comparable tuples (any correct sort of a strict "
-    "total order; insertion sort in the model), TypeError when elements of different kinds meet; sorted() on partially ordered "
+    "total order; insertion sort in the model), TypeError when elements of different kinds (or dataclass instances) meet - then "
+    "Set.get_hash orders the elements by their own value hash: the digest function is a PARAMETER H of the Lean model (theorems "
+    "hold for every H; injectivity on the elements is a stated hypothesis where needed); the driver runs the model with a "
+    "concrete injective stand-in digest, which orders the elements differently from SHA-512 - the tie only relies on the order "
+    "being a function of the set of element pre-images; sorted() on partially ordered "
     "elements (frozensets, tuples with incomparable components) is NOT modelled (the driver answers `unspecified`, the oracle "
     "still runs)",
     "the iteration order of a set in a given process is observed (printed by the worker), not predicted",
@@ -54,8 +61,8 @@ ASSUMPTIONS = [
     "(e.g. 1 and True), no Value subclasses with their own get_hash (File etc. are C30)",
     "'the same value' = same specification built by the same code in every process, with the elements of every set/frozenset "
     "inserted in a per-run permuted order",
-    "a value whose hashing raises the same error in every run (TypeError from sorted() on a top-level set of mixed element types) "
-    "is not counted as a violation of THIS property (no hash differs); it is reported in the evidence distribution",
+    "a value whose hashing raises the same error in every run is not counted as a violation of THIS property (no hash differs); "
+    "it is reported in the evidence distribution (none is expected since the TypeError fallback of Set.get_hash)",
 ]
 RULE = ("value specifications generated from one PRNG (scalars, nested list/tuple/dict/set/frozenset/dataclass, depth <= 4, sets at "
         "top level, nested, inside frozensets and dataclass fields; colliding ints; unicode strs; mixed-kind sets), each hashed by the "
@@ -75,7 +82,11 @@ LEVEL_TEXT = (
     "hash_stable_setfree and hash_stable_rigid (a value without sets - or whose sets all have at most one element - has one layout, "
     "hence one hash, in every process), partial_top_set / _int / _str "
     "(an exact top-level set of numbers, strs or bytes hashes the same under every layout: sorting a strict total order forgets "
-    "the order - isort_eq_of_perm), nonset_hash_eq_iff (anything that is not a top-level set is hashed as laid out: equal hash iff "
+    "the order - isort_eq_of_perm), partial_top_set_unorderable (a top-level set on which sorted() raises TypeError - mixed kinds, "
+    "dataclass instances; pySorted_typeError_perm: whether it raises does not depend on the layout - is ordered by the element "
+    "digests and hashes the same under every layout provided every element has a single layout and distinct elements have "
+    "distinct digests; refuted_unorderable_with_frozenset: {frozenset({a,b}), 1} is still order sensitive, for every digest "
+    "function), nonset_hash_eq_iff (anything that is not a top-level set is hashed as laid out: equal hash iff "
     "equal layout - this characterises exactly the order-sensitive values). Tie: real hashes from fresh interpreters with "
     "different PYTHONHASHSEED and permuted insertion orders vs. model pre-images, bijection over all observed layouts; the "
     "witnesses are replayed on the real code on every run.")
@@ -264,7 +275,9 @@ WITNESSES = [
 CORPUS = [
     S(*LETTERS), S(i_(8), i_(0), i_(16)), S(), ["FS", []], ["L", [S()]], S(s_("a")), ["L", [S(s_("a"))]],
     S(["b", "61"], ["b", "62"], ["b", "63"]), S(["T"], i_(2), i_(0)), S(["N"]),
-    S(i_(1), s_("a")),                                             # TypeError in every run
+    S(i_(1), s_("a")), S(i_(1), s_("a"), ["N"], ["b", "61"], ["U", []]),  # sorted() raises: ordered by element hash, stable
+    S(["O", "K1", [i_(1)]], ["O", "K1", [i_(2)]], ["O", "K2", [i_(1), s_("x")]]),
+    S(["FS", LETTERS[:4]], i_(1)),                                 # ... but not when an element has several layouts
     S(["U", [i_(1), s_("a")]], ["U", [i_(2), s_("b")]], ["U", [i_(0), s_("c")]]),
     S(["FS", [s_("a")]], ["FS", [s_("b")]], ["FS", [s_("c")]], ["FS", [s_("d")]]),     # incomparable elements
     ["O", "M2", [S(*LETTERS), i_(1)]], ["U", [["FS", LETTERS[:5]], ["FS", LETTERS[3:]]]],
